@@ -151,7 +151,47 @@ def check_unordered(case, ctx: Ctx):
                           "count=" + cdt])
 
 
-CHECKS = {"unordered": check_unordered}
+def check_big(case, ctx: Ctx):
+    """Unordered creation whose first chunk holds > 1e6 pixels, with a row starting exactly at pixel 1 000 000 of that
+    chunk (the index builder works in blocks of 1e6 rows); the second chunk repeats part of that row."""
+    import h5py
+    import pandas as pd
+
+    import cooler
+
+    n, full_rows = 1250, 800                      # 800 * 1250 = 1_000_000
+    i = np.repeat(np.arange(full_rows + 3), n)
+    j = np.tile(np.arange(n), full_rows + 3)
+    keep = (i < full_rows) | (j % 2 == 0)
+    i, j = i[keep], j[keep]
+    cnt = ((i * 5 + j) % 7 + 1).astype(np.int32)
+    first = pd.DataFrame({"bin1_id": i, "bin2_id": j, "count": cnt})
+    r = full_rows
+    second = pd.DataFrame({"bin1_id": np.full(10, r), "bin2_id": np.arange(0, 20, 2), "count": np.full(10, 100, dtype=np.int32)})
+    bins = pd.DataFrame({"chrom": ["c1"] * n, "start": np.arange(n) * 10, "end": np.arange(1, n + 1) * 10})
+    d = ctx.tmpdir()
+    try:
+        out = os.path.join(d, "big.cool")
+        call("create_cooler(unordered, >1e6 pixels)", cooler.create_cooler, out, bins, iter([first, second]), ordered=False,
+             symmetric_upper=False, mergebuf=case.get("mergebuf", 400_000), h5opts={"compression": None})
+        with h5py.File(out, "r") as f:
+            probs = schema.validate(f["/"])
+            check(not probs, lambda: f">1e6 unordered: {probs[:3]}")
+            check(int(f.attrs["nnz"]) == len(first), f"nnz {f.attrs['nnz']} want {len(first)}")
+        clr = cooler.Cooler(out)
+        row = clr.matrix(balance=False, sparse=True)[r:r + 1, :].toarray()[0]
+        want = np.zeros(n, dtype=np.int64)
+        sel = i == r
+        want[j[sel]] = cnt[sel]
+        want[np.arange(0, 20, 2)] += 100
+        check(np.array_equal(row, want), "the row starting at pixel 1 000 000 reads back differently (repeats not summed or row lost)")
+        check(clr.info["sum"] == int(cnt.sum()) + 1000, "total differs")
+    finally:
+        ctx.clean(d)
+    ctx.record(case, True, ["big"], n_eval=1)
+
+
+CHECKS = {"unordered": check_unordered, "big": check_big}
 
 
 def replay(ctx: Ctx, case):
@@ -160,4 +200,11 @@ def replay(ctx: Ctx, case):
 
 def run(ctx: Ctx):
     q = ctx.tier == "quick"
+    if ctx.shard == 0 or (not q and ctx.shard < 3):
+        case = {"part": "big", "mergebuf": [400_000, 1_000_001, 50_000][ctx.shard % 3]}
+        try:
+            check_big(case, ctx)
+        except Violation as e:
+            ctx.add_violation(case, str(e))
+            return
     run_given(ctx, "unordered", cases(), check_unordered, per_shard(ctx, 1100 if q else 36000), batch=50)
